@@ -2,8 +2,10 @@
 import importlib
 import os
 import pkgutil
+import traceback
 
 _loaded = False
+LOAD_ERRORS = {}      # module name -> traceback text
 
 
 def load_all():
@@ -14,4 +16,7 @@ def load_all():
     here = os.path.dirname(__file__)
     for m in sorted(pkgutil.iter_modules([here])):
         if m.name.startswith("c") and m.name[1:3].isdigit():
-            importlib.import_module(__name__ + "." + m.name)
+            try:
+                importlib.import_module(__name__ + "." + m.name)
+            except Exception:
+                LOAD_ERRORS[m.name] = traceback.format_exc()
